@@ -488,10 +488,11 @@ Count(s, x) == Cardinality({i \in 1..Len(s) : s[i] = x})
 \* without errors: every operand exactly once, result = the Boolean combination;
 \* with an erring operand: the reply is that error, no operand twice, an erring operand
 \* was evaluated last and nothing after it.
-LogicExact ==
-    [][ Is("logic") =>
-          LET fm == act'.fm  ids == LeafIds(fm, 1)
-              all == res'.log
+\* (stated for a reply r, so that recorded replies can be judged by it directly: the ORDER in which operands are
+\* initialised or evaluated is not part of the statement)
+LogicOk(fm, r) ==
+          LET ids == LeafIds(fm, 1)
+              all == r.log
               \* the log starts with the initialisations (negated ids): every operand once, before any evaluation
               ni == Cardinality(ids)
               lg == SubSeq(all, ni + 1, Len(all)) IN
@@ -499,14 +500,15 @@ LogicExact ==
           /\ \A p \in ids : Count(SubSeq(all, 1, ni), 0 - p[1]) = 1
           /\ \A i \in 1..Len(lg) : \E p \in ids : p[1] = lg[i]
           /\ IF ~HasErr(fm)
-             THEN /\ Told(Holds(fm))
+             THEN /\ r.k = "bool" /\ r.b = B2N(Holds(fm))
                   /\ \A p \in ids : Count(lg, p[1]) = 1
-             ELSE /\ res'.k = "err"
+             ELSE /\ r.k = "err"
                   /\ \A p \in ids : Count(lg, p[1]) <= 1
                   /\ Len(lg) >= 1
                   /\ <<lg[Len(lg)], "e">> \in ids
                   /\ \A i \in 1..(Len(lg) - 1) : <<lg[i], "e">> \notin ids
-          /\ state' = state ]_vars
+LogicExact ==
+    [][ Is("logic") => LogicOk(act'.fm, res') /\ state' = state ]_vars
 
 \* an initialised loop bounded by less-than-n(iterations) makes exactly n passes, tests
 \* n + 1 times, its body sees the counter values 0 .. n-1, and it leaves progress n / n
